@@ -264,3 +264,25 @@ func VerifH_C10_TwoQoS2() {
 	verifAssert(e1 == nil && e2 == nil, "C10.both_flows_complete")
 	cli.Close()
 }
+
+// P8: two independent clients of one process connect at the same time (e.g. both reconnecting after the
+// same broker restart): whatever the library shares between client instances is safe for that.
+func VerifH_C10_TwoClients() {
+	mk := func(name string) (*vconn, *BaseClient) {
+		conn := newVconn(name)
+		conn.answerConnect([]byte{0x20, 2, 0, 0})
+		return conn, &BaseClient{Transport: conn}
+	}
+	_, c1 := mk("c0")
+	_, c2 := mk("c1")
+	done := make(chan error, 2)
+	go func() { _, err := c1.Connect(context.Background(), "one"); done <- err }()
+	go func() { _, err := c2.Connect(context.Background(), "two"); done <- err }()
+	e1, e2 := <-done, <-done
+	verifAssert(e1 == nil && e2 == nil, "C10.both_clients_connect")
+	verifReach("connected")
+	_ = c1.Publish(context.Background(), &Message{Topic: "a", QoS: QoS0, Payload: []byte{1}})
+	_ = c2.Publish(context.Background(), &Message{Topic: "b", QoS: QoS0, Payload: []byte{2}})
+	c1.Close()
+	c2.Close()
+}
